@@ -42,6 +42,16 @@ func fmtNative(format string, hasFormat bool, args []value) string {
 				}
 			}
 			conc = append(conc, v)
+		case []value:
+			// an unnamed []byte with concrete content (%X, %x, %s of byte slices)
+			raw, isBytes := concBytes(v)
+			if sl, isSlice := it.t.(*types.Slice); isBytes && isSlice {
+				if b, isB := sl.Elem().Underlying().(*types.Basic); isB && b.Kind() == types.Uint8 {
+					conc = append(conc, raw)
+					break
+				}
+			}
+			ok = false
 		default:
 			ok = false
 		}
@@ -181,9 +191,13 @@ func init() {
 			}
 			return out
 		},
+		// the wall clock is environment: every call returns a fresh arbitrary instant (years 2001..2100, UTC, no
+		// monotonic reading), so any dependence of a result on it shows up as a free variable
 		"time.Now": func(fr *frame, a []value) value {
-			unsup("time.Now() reached (wall-clock dependence)")
-			return nil
+			fr.i.m.Stubs["time.Now: arbitrary instant (fresh symbolic seconds/nanoseconds per call)"]++
+			sec := fr.i.nondetInt("env.time.Now.sec", types.Int64, big.NewInt(63113904000+31536000), big.NewInt(63113904000+100*31557600))
+			nsec := fr.i.nondetInt("env.time.Now.nsec", types.Uint64, big.NewInt(0), big.NewInt(999999999))
+			return structure{nsec, sec, (*value)(nil)}
 		},
 		"time.runtimeNano": func(fr *frame, a []value) value { return int64(0) },
 		"time.now":         func(fr *frame, a []value) value { return tuple{int64(0), int32(0), int64(0)} },
@@ -335,7 +349,9 @@ func init() {
 		// no monotonic reading expected
 		wt := i.term(wall)
 		if !(wt.Hi != nil && wt.Hi.Cmp(pow2(63)) < 0) {
-			unsup("FormatTimeBytes of a time with a monotonic clock reading")
+			if i.decide(C.Le(C.Const(pow2(63)), wt)) {
+				unsup("FormatTimeBytes of a time with a monotonic clock reading")
+			}
 		}
 		nsec := C.Mod(wt, C.Const(pow2(30)))
 		sec := i.term(ext)
@@ -506,8 +522,17 @@ func init() {
 		if raw, ok := concBytes(a[0]); ok {
 			return hex.EncodeToString(raw)
 		}
-		fr.i.m.Stubs["hex text of symbolic/opaque bytes as placeholder"]++
-		return "<hex-of-symbolic-bytes>"
+		// text of symbolic/opaque bytes: a one-cell text token that DecodeString turns back into the same bytes
+		fr.i.m.Stubs["hex text of symbolic/opaque bytes as a reversible text token"]++
+		return symStr{[]value{boxCell{kind: "hextext", v: append([]value{}, byteCells(a[0])...)}}}
+	}
+	externals["encoding/hex.DecodeString"] = func(fr *frame, a []value) value {
+		if s, ok := a[0].(symStr); ok && len(s.cells) == 1 {
+			if tok, ok := s.cells[0].(boxCell); ok && tok.kind == "hextext" {
+				return tuple{append([]value{}, tok.v.([]value)...), iface{}}
+			}
+		}
+		return fallthroughSSA{}
 	}
 }
 
@@ -516,8 +541,16 @@ func init() {
 		if _, ok := concBytes(a[1]); ok {
 			return fallthroughSSA{}
 		}
-		fr.i.m.Stubs["base64 text of symbolic bytes as placeholder"]++
-		return "<base64-of-symbolic-bytes>"
+		fr.i.m.Stubs["base64 text of symbolic/opaque bytes as a reversible text token"]++
+		return symStr{[]value{boxCell{kind: "b64text", v: append([]value{}, byteCells(a[1])...)}}}
+	}
+	externals["(*encoding/base64.Encoding).DecodeString"] = func(fr *frame, a []value) value {
+		if s, ok := a[1].(symStr); ok && len(s.cells) == 1 {
+			if tok, ok := s.cells[0].(boxCell); ok && tok.kind == "b64text" {
+				return tuple{append([]value{}, tok.v.([]value)...), iface{}}
+			}
+		}
+		return fallthroughSSA{}
 	}
 }
 
@@ -601,30 +634,53 @@ func init() {
 	}
 }
 
-// mintkey armor (scrypt + AES-GCM): an opaque one-cell string token (private key, passphrase); decryption succeeds
-// iff the passphrase equals the one used for encryption (authenticity of AES-GCM and determinism of scrypt assumed).
+// mintkey (crypto/keys/mintkey) runs as real code down to its primitives, which are modelled:
+//   crypto.CRandBytes(n)          n deterministic pseudo-random concrete bytes (a per-path counter): the salt
+//   scrypt.Key(pass, salt, ...)   klen bytes: sha256-based digest of (pass, salt) - concrete for concrete input, an
+//                                 injective token otherwise (KDF determinism + collision freedom assumed)
+//   EncryptAESGCM(key, plain)     a one-cell token (key, plain);  DecryptAESGCM(key', token) returns plain iff key' == key
+//                                 (authenticated encryption assumed), raw bytes never decrypt
 func init() {
 	const mk = RepoMod + "/crypto/keys/mintkey."
-	externals[mk+"EncryptArmorPrivKey"] = func(fr *frame, a []value) value {
-		tok := boxCell{kind: "armor", v: tuple{a[0], a[1]}}
-		return tuple{symStr{[]value{tok}}, iface{}}
+	externals["github.com/tendermint/tendermint/crypto.CRandBytes"] = func(fr *frame, a []value) value {
+		n := int(asInt64(a[0]))
+		fr.i.randCtr++
+		out := make([]value, n)
+		for j := 0; j < n; j++ {
+			out[j] = uint8((fr.i.randCtr*131 + j*29 + 7) % 251)
+		}
+		fr.i.m.Stubs["crypto.CRandBytes: deterministic concrete bytes (per-path counter)"]++
+		return out
 	}
-	externals[mk+"UnarmorDecryptPrivKey"] = func(fr *frame, a []value) value {
-		var nilKey value = iface{}
-		s, ok := a[0].(symStr)
-		if !ok || len(s.cells) != 1 {
-			return tuple{nilKey, fr.i.mkError("mintkey: cannot decode armor")}
+	externals["golang.org/x/crypto/scrypt.Key"] = func(fr *frame, a []value) value {
+		pass, salt := byteCells(a[0]), byteCells(a[1])
+		klen := int(asInt64(a[5]))
+		src := append(append(append([]value{}, pass...), uint8(0xff), uint8(len(pass)%251)), salt...)
+		sum := externals["crypto/sha256.Sum256"](fr, []value{src}).(array)
+		out := make([]value, klen)
+		for j := 0; j < klen; j++ {
+			out[j] = sum[j%32]
 		}
-		tok, ok := s.cells[0].(boxCell)
-		if !ok || tok.kind != "armor" {
-			return tuple{nilKey, fr.i.mkError("mintkey: cannot decode armor")}
+		fr.i.m.Stubs["scrypt.Key as sha256(passphrase, salt) (deterministic, collision-free KDF assumed)"]++
+		return tuple{out, iface{}}
+	}
+	externals[mk+"EncryptAESGCM"] = func(fr *frame, a []value) value {
+		tok := boxCell{kind: "aesgcm", v: tuple{append([]value{}, byteCells(a[0])...), append([]value{}, byteCells(a[1])...)}}
+		fr.i.m.Stubs["AES-GCM as an authenticated-encryption token (key, plaintext)"]++
+		return tuple{[]value{tok}, iface{}}
+	}
+	externals[mk+"DecryptAESGCM"] = func(fr *frame, a []value) value {
+		enc := byteCells(a[1])
+		if len(enc) == 1 {
+			if tok, ok := enc[0].(boxCell); ok && tok.kind == "aesgcm" {
+				tp := tok.v.(tuple)
+				_, eq := fr.i.cmpCells(tp[0].([]value), byteCells(a[0]))
+				if fr.i.decide(eq) {
+					return tuple{append([]value{}, tp[1].([]value)...), iface{}}
+				}
+			}
 		}
-		tp := tok.v.(tuple)
-		_, eq := fr.i.cmpCells(strCells(tp[1]), strCells(a[1]))
-		if fr.i.decide(eq) {
-			return tuple{tp[0], iface{}}
-		}
-		return tuple{nilKey, fr.i.mkError("mintkey: invalid account password")}
+		return tuple{[]value(nil), fr.i.mkError("cipher: message authentication failed")}
 	}
 }
 
